@@ -189,7 +189,7 @@ def var_code(o):
 
 def term(node, depth=0):
     """Nested-term view (DESIGN.md 3.1) by kind dispatch on the class and left/right."""
-    if depth > 200:
+    if depth > 5000:
         raise RecursionError("term too deep / cyclic")
     k = kind_of(node)
     if k == "c":
